@@ -13,11 +13,11 @@ MUT = os.path.join(tempfile.mkdtemp(prefix="verif_mut_"), "repo")
 
 MUTANTS = {
  "C08": [
-  ("m1 sort ids by value", "thejoker/data_helpers.py", "    t, rv, err, ids = t[sort_idx], rv[sort_idx], err[sort_idx], ids[sort_idx]\n",
-      "    t, rv, err, ids = t[sort_idx], rv[sort_idx], err[sort_idx], np.sort(ids)\n", True),
-  ("m2 labels sorted with a different (unstable) sort: only tied epochs of different surveys", "thejoker/data_helpers.py",
-      "    t, rv, err, ids = t[sort_idx], rv[sort_idx], err[sort_idx], ids[sort_idx]\n",
-      "    t, rv, err, ids = t[sort_idx], rv[sort_idx], err[sort_idx], ids[np.argsort(t)]\n", True),
+  ("m1 sort ids by value", "thejoker/data_helpers.py", "    ids = np.concatenate(ids)\n", "    ids = np.sort(np.concatenate(ids))\n", True),
+  ("m2 merged rows time-sorted by RVData, labels left in concatenation order (the original defect)", "thejoker/data_helpers.py",
+      "rv=rv, rv_err=err, sort=False)\n", "rv=rv, rv_err=err)\n", True),
+  ("m2b rows sorted with numpy's unstable sort, labels with a stable one: only tied epochs of different surveys", "thejoker/data_helpers.py",
+      "rv=rv, rv_err=err, sort=False)\n", "rv=rv, rv_err=err)\n    ids = ids[np.argsort(t, kind='stable')]\n", True),
   ("m3 reference = largest key", "thejoker/likelihood_helpers.py", "    for j, id_ in enumerate(unq_ids[1:]):\n", "    for j, id_ in enumerate(unq_ids[:-1]):\n", True),
   ("m4 offset columns shifted by one (last source loses its column)", "thejoker/likelihood_helpers.py",
       "        constant_part[ids == id_, j + 1] = 1.0\n", "        constant_part[ids == id_, max(j, 1)] = 1.0\n", True),
@@ -29,23 +29,29 @@ MUTANTS = {
       "        return CJokerHelper(all_data, self.prior, trend_M)\n",
       "        from .likelihood_helpers import get_trend_design_matrix as _g\n        return CJokerHelper(all_data, self.prior, _g(all_data, np.sort(ids), self.prior.poly_trend))\n", True),
   ("m8 merged reference epoch = first concatenated epoch instead of the earliest", "thejoker/data_helpers.py",
-      "                      rv=rv, rv_err=err)\n", "                      rv=rv, rv_err=err, t_ref=Time(np.concatenate([data[k].t.tcb.mjd for k in data.keys()])[0], format='mjd', scale='tcb'))\n", True),
+      "rv=rv, rv_err=err, sort=False)\n", "rv=rv, rv_err=err, sort=False, t_ref=Time(t[0], format='mjd', scale='tcb'))\n", True),
   ("m9 errors of the sources concatenated in reversed source order", "thejoker/data_helpers.py",
       "    err = np.concatenate(err) * rv_unit\n", "    err = np.concatenate(err[::-1]) * rv_unit\n", True),
+  ("m10 sort=False skips the velocities only when cleaning: rows sorted except rv", "thejoker/data.py",
+      "            self.rv = self.rv[idx]\n            if self._has_cov:\n                self.rv_err = self.rv_err[idx]\n                self.rv_err = self.rv_err[:, idx]\n            else:\n                self.rv_err = self.rv_err[idx]\n\n        if t_ref is False:",
+      "            if self._has_cov:\n                self.rv_err = self.rv_err[idx]\n                self.rv_err = self.rv_err[:, idx]\n            else:\n                self.rv_err = self.rv_err[idx]\n        if True:\n            idx = self._t_bmjd.argsort()\n            self._t_bmjd = self._t_bmjd[idx]\n            self.rv_err = self.rv_err[idx] if not self._has_cov else self.rv_err\n\n        if t_ref is False:", True),
   ("h1 harmless: iterate the dict in sorted key order", "thejoker/data_helpers.py", "    for k in data.keys():\n", "    for k in sorted(data.keys()):\n", False),
-  ("h2 harmless: RVData back to the default (unstable) sort", "thejoker/data.py", 'idx = self._t_bmjd.argsort(kind="stable")', "idx = self._t_bmjd.argsort()", False),
+  ("h2 harmless: merged rows time-sorted, labels re-ordered by the same sort", "thejoker/data_helpers.py",
+      "rv=rv, rv_err=err, sort=False)\n", "rv=rv, rv_err=err)\n    ids = ids[np.argsort(t)]\n", False),
   ("h3 harmless: indicator columns by comparison broadcast", "thejoker/likelihood_helpers.py",
       "    for j, id_ in enumerate(unq_ids[1:]):\n        constant_part[ids == id_, j + 1] = 1.0\n",
       "    constant_part[:, 1:] = (ids[:, None] == unq_ids[None, 1:]).astype(float)\n", False),
   ("h4 harmless: trend columns by explicit powers", "thejoker/likelihood_helpers.py",
       "    trend_M = np.vander(dt, N=poly_trend, increasing=True)[:, 1:]\n",
       "    trend_M = np.stack([dt ** l for l in range(1, poly_trend)], axis=1) if poly_trend > 1 else np.zeros((len(dt), 0))\n", False),
+  ("h5 harmless: rows and labels pre-sorted by one stable argsort", "thejoker/data_helpers.py",
+      "    ids = np.concatenate(ids)\n", "    ids = np.concatenate(ids)\n    _o = np.argsort(t, kind='stable'); t, rv, err, ids = t[_o], rv[_o], err[_o], ids[_o]\n", False),
  ],
  "C15": [
-  ("m1 velocities sorted separately", "thejoker/data.py", "        self.rv = self.rv[idx]\n        if self._has_cov:\n            self.rv_err = self.rv_err[idx]\n            self.rv_err = self.rv_err[:, idx]\n        else:\n            self.rv_err = self.rv_err[idx]\n\n        if t_ref is False:",
-      "        self.rv = self.rv[self.rv.argsort()]\n        if self._has_cov:\n            self.rv_err = self.rv_err[idx]\n            self.rv_err = self.rv_err[:, idx]\n        else:\n            self.rv_err = self.rv_err[idx]\n\n        if t_ref is False:", True),
-  ("m2 covariance sorted in rows only", "thejoker/data.py", "            self.rv_err = self.rv_err[idx]\n            self.rv_err = self.rv_err[:, idx]\n        else:\n            self.rv_err = self.rv_err[idx]\n\n        if t_ref is False:",
-      "            self.rv_err = self.rv_err[idx]\n        else:\n            self.rv_err = self.rv_err[idx]\n\n        if t_ref is False:", True),
+  ("m1 velocities sorted separately", "thejoker/data.py", "            self.rv = self.rv[idx]\n            if self._has_cov:\n                self.rv_err = self.rv_err[idx]\n                self.rv_err = self.rv_err[:, idx]\n            else:\n                self.rv_err = self.rv_err[idx]\n\n        if t_ref is False:",
+      "            self.rv = self.rv[self.rv.argsort()]\n            if self._has_cov:\n                self.rv_err = self.rv_err[idx]\n                self.rv_err = self.rv_err[:, idx]\n            else:\n                self.rv_err = self.rv_err[idx]\n\n        if t_ref is False:", True),
+  ("m2 covariance sorted in rows only", "thejoker/data.py", "                self.rv_err = self.rv_err[idx]\n                self.rv_err = self.rv_err[:, idx]\n            else:\n                self.rv_err = self.rv_err[idx]\n\n        if t_ref is False:",
+      "                self.rv_err = self.rv_err[idx]\n            else:\n                self.rv_err = self.rv_err[idx]\n\n        if t_ref is False:", True),
   ("m3 clean ignores the uncertainties", "thejoker/data.py", "                idx &= np.isfinite(self.rv_err)\n", "                pass\n", True),
   ("m4 default reference epoch = latest time", "thejoker/data.py", "                t_ref = self.t.min()\n", "                t_ref = self.t.max()\n", True),
   ("m5 ivar = 1/err", "thejoker/data.py", "            return 1 / self.rv_err**2\n", "            return 1 / self.rv_err\n", True),
@@ -53,16 +59,17 @@ MUTANTS = {
   ("m7 copy passes t_ref=self.t_ref (loses 'no reference epoch')", "thejoker/data.py", "            t_ref=False if self.t_ref is None else self.t_ref,\n", "            t_ref=self.t_ref,\n", True),
   ("m8 inf counts as finite (isnan instead of isfinite) for velocities", "thejoker/data.py", "            idx = np.isfinite(self._t_bmjd) & np.isfinite(self.rv)\n", "            idx = np.isfinite(self._t_bmjd) & ~np.isnan(self.rv)\n", True),
   ("m9 Time input read in its own scale instead of TCB", "thejoker/data.py", "            _t_bmjd = t.tcb.mjd\n", "            _t_bmjd = t.mjd\n", True),
-  ("m10 covariance cleaned in columns only when filtering", "thejoker/data.py", "            if self._has_cov:\n                self.rv_err = self.rv_err[idx]\n                self.rv_err = self.rv_err[:, idx]\n            else:\n                self.rv_err = self.rv_err[idx]\n\n        # sort on times",
-      "            if self._has_cov:\n                self.rv_err = self.rv_err[:, idx][: idx.sum()]\n            else:\n                self.rv_err = self.rv_err[idx]\n\n        # sort on times", True),
+  ("m10 covariance cleaned in columns only when filtering", "thejoker/data.py", "            if self._has_cov:\n                self.rv_err = self.rv_err[idx]\n                self.rv_err = self.rv_err[:, idx]\n            else:\n                self.rv_err = self.rv_err[idx]\n\n        if sort:",
+      "            if self._has_cov:\n                self.rv_err = self.rv_err[:, idx][: idx.sum()]\n            else:\n                self.rv_err = self.rv_err[idx]\n\n        if sort:", True),
   ("m11 ivar of a covariance = elementwise reciprocal", "thejoker/data.py", "            return np.linalg.inv(self.rv_err.value) / self.rv_err.unit\n", "            return (1 / self.rv_err.value) / self.rv_err.unit\n", True),
   ("m12 slices keep the uncertainty of the unsliced head", "thejoker/data.py", "                rv_err=self.rv_err.copy()[slc],\n                clean=False,\n", "                rv_err=self.rv_err.copy()[: len(self.rv.copy()[slc])],\n                clean=False,\n", True),
-  ("h1 harmless: default (unstable) sort", "thejoker/data.py", 'idx = self._t_bmjd.argsort(kind="stable")', "idx = self._t_bmjd.argsort()", False),
-  ("h2 harmless: covariance indexed with np.ix_", "thejoker/data.py", "            self.rv_err = self.rv_err[idx]\n            self.rv_err = self.rv_err[:, idx]\n        else:\n            self.rv_err = self.rv_err[idx]\n\n        if t_ref is False:",
-      "            self.rv_err = self.rv_err[np.ix_(idx, idx)]\n        else:\n            self.rv_err = self.rv_err[idx]\n\n        if t_ref is False:", False),
+  ("m13 data are no longer sorted by default (sort keyword defaults to False)", "thejoker/data.py", "t_ref=None, clean=True, sort=True):", "t_ref=None, clean=True, sort=False):", True),
+  ("h1 harmless: stable sort", "thejoker/data.py", "idx = self._t_bmjd.argsort()", 'idx = self._t_bmjd.argsort(kind="stable")', False),
+  ("h2 harmless: covariance indexed with np.ix_", "thejoker/data.py", "                self.rv_err = self.rv_err[idx]\n                self.rv_err = self.rv_err[:, idx]\n            else:\n                self.rv_err = self.rv_err[idx]\n\n        if t_ref is False:",
+      "                self.rv_err = self.rv_err[np.ix_(idx, idx)]\n            else:\n                self.rv_err = self.rv_err[idx]\n\n        if t_ref is False:", False),
   ("h3 harmless: ivar as err**-2", "thejoker/data.py", "            return 1 / self.rv_err**2\n", "            return self.rv_err**-2\n", False),
   ("h4 harmless: slices keep the parent's reference epoch", "thejoker/data.py", "                rv_err=self.rv_err.copy()[slc],\n                clean=False,\n", "                rv_err=self.rv_err.copy()[slc],\n                clean=False,\n                t_ref=False if self.t_ref is None else self.t_ref,\n", False),
-  ("h5 harmless: mergesort", "thejoker/data.py", 'idx = self._t_bmjd.argsort(kind="stable")', 'idx = np.argsort(self._t_bmjd, kind="mergesort")', False),
+  ("h5 harmless: mergesort", "thejoker/data.py", "idx = self._t_bmjd.argsort()", 'idx = np.argsort(self._t_bmjd, kind="mergesort")', False),
  ],
 }
 
